@@ -12,6 +12,10 @@
 #     Secured modes: a request is pending during a renewal and its response arrives afterwards,
 #     protected with the token that was current when the request was made (written with the old keys
 #     by the harness, since the library's server channel has none left): it must be accepted.
+#     In the renewal runs every OPN renewal request is delayed by 150 ms on its way to the server (the
+#     whole client->server stream from it on, FIFO kept), so requests are issued while the renewal is in
+#     flight (machine: RenewStart .. RenewEnd, gateQ; InvGateUsesNew), and one sender keeps a long poll
+#     outstanding that the server answers after 1.5 lifetimes (a parked Publish across a renewal).
 #  4. Real renewals (library timer, 2-3 s lifetimes, None and SignAndEncrypt) with client requests
 #     and delayed server responses in flight all the time: every request must complete, no channel
 #     error, exactly one renewal per token inside the window.
@@ -28,17 +32,19 @@ def body(run):
         lambda: run.tlc("ScToken", "ScToken", "ScToken_dev_floor.cfg", expect="violation", count=False, workers=1, label="demo (repaired 2282172): whole-second delay"),
         lambda: run.tlc("ScToken", "ScToken", "ScToken_dev_rekey.cfg", expect="violation", count=False, workers=1, label="as-is: server re-keys in place"),
         lambda: exe.__setitem__(0, run.go_build("scsend")),
+        lambda: run.tlc("ScToken", "ScToken", "ScToken_dev_gateold.cfg", expect="violation", count=False, workers=1,
+                        label="demo: request issued during a renewal sent with the superseded token"),
     ]
     if not q:
         jobs += [lambda: run.tlc("ScToken", "ScToken", "ScToken_rel_t.cfg", label="contract: every lifetime 2..20000 ms", workers=4, timeout=3000),
                  lambda: run.tlc("ScToken", "ScToken", "ScToken_rel_gen_t.cfg", mode="gen", count=False, label="rows: 50 ms grid", timeout=3000)]
     res = run.parallel(*jobs)
-    if res[2].violated != "InvRenewWindow" or res[3].violated != "InvUsable":
-        raise vf.Inconclusive("deviation demos violated %s / %s" % (res[2].violated, res[3].violated))
+    if res[2].violated != "InvRenewWindow" or res[3].violated != "InvUsable" or res[5].violated != "InvGateUsesNew":
+        raise vf.Inconclusive("deviation demos violated %s / %s / %s" % (res[2].violated, res[3].violated, res[5].violated))
     rows = list(res[0].rows)
     if not q:
         seen = {r["lifetime"] for r in rows}
-        rows += [r for r in res[6].rows if r["lifetime"] not in seen]
+        rows += [r for r in res[7].rows if r["lifetime"] not in seen]
     cases = [{"n": i, "mode": "lifetime", "lifetime_ms": r["lifetime"]} for i, r in enumerate(rows)]
     byl = {r["lifetime"]: r for r in rows}
     # the same rows with the server's clock an hour behind / ahead of the client's
@@ -98,7 +104,7 @@ def body(run):
             installs = [e for e in tl if e["ev"] == "open.installed"]
             fires = [e for e in tl if e["ev"] == "renew.fire"]
             scheds = [e for e in tl if e["ev"] == "renew.sched"]
-            r["obs"] = {k: o[k] for k in ("lifetime_ms", "ok_requests", "failures", "channel_errors", "server_receive_errors")}
+            r["obs"] = {k: o[k] for k in ("lifetime_ms", "ok_requests", "failures", "channel_errors", "server_receive_errors", "long_polls_ok", "renewals_delayed")}
             r["obs"].update({"renewals": len(installs), "fires": len(fires)})
             secure = r["case"].get("policy") != "None"
             probs = []
@@ -110,6 +116,9 @@ def body(run):
             # once per token, inside the window (the initial token was installed before the recorder was attached)
             if len(fires) > len(installs) + 1:
                 probs.append(("token-renewed-more-than-once", "%d renewal timers fired for %d installed tokens" % (len(fires), len(installs) + 1)))
+            if r["case"]["duration_ms"] >= 3 * L and not o["failures"] and (o.get("long_polls_ok", 0) < 1 or o.get("renewals_delayed", 0) < 1):
+                r["status"], r["detail"] = "inconclusive", "no long poll completed / no renewal was delayed: the run does not exercise requests outstanding across a renewal"
+                continue
             if not installs and o.get("ok_requests", 0) > 0 and r["case"]["duration_ms"] > L:
                 probs.append(("token-not-renewed-before-expiry", "no renewal completed within %d ms (lifetime %d ms)" % (r["case"]["duration_ms"], L)))
             for a, b in zip(installs, installs[1:]):
